@@ -58,6 +58,11 @@ FIRST = {
     'a04-C05': 'missed -> W2 node-function-on-every-path (per kind, no way round the f_node call)',
     'b01-C04': 'caught', 'b02-C07': 'caught', 'b03-C08': 'caught', 'b05-C12': 'caught', 'b07-C15': 'caught',
     'b08-C16': 'caught', 'b09-C17': 'caught', 'b10-C19': 'caught',
+    'c05-C05': 'caught', 'c09-C09': 'caught', 'c18-C18': 'caught', 'c20-C20': 'caught',
+    'c01-C01': 'missed by C01 (the same change as b10, written independently; DC1 reported it under C19) -> DC1 and DC4 now also decide C01',
+    'c06-C06': 'missed -> new rule H5 (node metadata is compared by value, never by identity)',
+    'c10-C10': 'analysis error only (F6 required a single return) -> F6 result-through-inner-treespec: every result of the transpose family is inner_treespec.unflatten(...)',
+    'c13-C13': 'missed -> new rule D4 (registry.get asks about the mode of the namespace it was asked about, in both lookup forms)',
     'b04-C11': 'missed -> S1 one-state-per-node (one per-node tuple constructor, stored on every path through the loop, never from a memo shared between nodes)',
     'b06-C14': 'missed by C14 (P1 reported it under C05/C07/C09) -> new rules A6 (computed-key reads of a caller mapping only after a key-set check) and A7 (in-place mutation only of containers the call created)',
     'z07-C15': 'analysis error in C13 only (restore moved into a local helper) -> D1 looks through the helper, the statement CFG lets exceptions no handler matches escape `except Exception`, D1 added to C15',
